@@ -723,7 +723,10 @@ impl<'de, 'a, R: Reader<'de>> de::Deserializer<'de> for &'a mut Deserializer<R> 
             Some(b'n') => {
                 self.parser.read.eat(1);
                 tri!(self.parser.parse_literal("ull"));
-                visitor.visit_none()
+                // an error raised by the visitor has no position yet
+                visitor
+                    .visit_none()
+                    .map_err(|err| self.parser.fix_position(err))
             }
             _ => visitor.visit_some(self),
         }
@@ -922,7 +925,12 @@ impl<'de, 'a, R: Reader<'de>> de::Deserializer<'de> for &'a mut Deserializer<R> 
                     None => Err(self.parser.error(ErrorCode::EofWhileParsing)),
                 }
             }
-            Some(b'"') => visitor.visit_enum(UnitVariantAccess::new(self)),
+            Some(b'"') => {
+                // an error raised by the visitor (a string naming a variant that is not a unit
+                // variant) has no position yet
+                let ret = visitor.visit_enum(UnitVariantAccess::new(&mut *self));
+                ret.map_err(|err| self.parser.fix_position(err))
+            }
             Some(_) => Err(self.parser.error(ErrorCode::InvalidJsonValue)),
             None => Err(self.parser.error(ErrorCode::EofWhileParsing)),
         }
